@@ -18,16 +18,21 @@ def legacy_images_desc(draw, versions=("1.0", "1.1")):
     entries = []
     serial = [0]
 
-    def record(image_arch):
+    def record(image_arch, variant=None):
         rec = draw(imm.image_record())
         rec["unified"] = False
         rec["additional_variants"] = []
         serial[0] += 1
-        rec["disc_number"] = serial[0]          # distinct identities: collisions belong to C09 / KF-C05
+        rec["disc_number"] = serial[0]          # distinct identities: collisions (different checksums) belong to C09 / KF-C05
         rec["path"] = "%s.%d" % (rec["path"], serial[0])
         rec["arch"] = image_arch
         if version == "1.0":
             rec["subvariant"] = ""
+        twins = [e["rec"] for e in entries if e["variant"] == variant and e["arch"] == image_arch]
+        if twins and draw(st.integers(0, 2)) == 0:
+            # a second file with the SAME identity and the same checksums (a re-spun copy under another name): legal in every version
+            for k in imm.IDENTITY + ["checksums"]:
+                rec[k] = twins[0][k] if k != "checksums" else dict(twins[0][k])
         return rec
 
     layout = {}
@@ -37,10 +42,10 @@ def legacy_images_desc(draw, versions=("1.0", "1.1")):
         for arch in arches:
             n = draw(st.sampled_from([0, 1, 1, 2]))
             for _ in range(n):
-                entries.append({"variant": variant, "arch": arch, "rec": record(arch)})
+                entries.append({"variant": variant, "arch": arch, "rec": record(arch, variant)})
         if layout[variant]["has_src"]:
-            for _ in range(draw(st.integers(1, 2))):
-                entries.append({"variant": variant, "arch": "src", "rec": record("src")})
+            for _ in range(draw(st.integers(1, 3))):
+                entries.append({"variant": variant, "arch": "src", "rec": record("src", variant)})
     return {"version": version, "compose": draw(gen.compose_section_desc()), "layout": layout, "entries": entries}
 
 
